@@ -118,7 +118,7 @@ Definition case_wf (c : case) : Prop :=
   | CaseCS c => mcase_wf cs_path cs_small cs_op_wf c
   | CaseFM c => mcase_wf fm_path fm_small (fun _ => True) c
   | CaseHT c => mcase_wf ht_path ht_small (fun _ => True) c
-  | CaseSV c => mcase_wf sv_path (fun _ => True) sv_op_wf c
+  | CaseSV c => mcase_wf sv_path sv_small sv_op_wf c
   | CaseTK c => mcase_wf tk_path tk_small tk_op_wf c
   end.
 
@@ -126,7 +126,7 @@ Lemma agreement_implies_property_lemma c :
   case_wf c -> fst (fst (check_case c)) = -1 -> snd (fst (check_case c)) = -1.
 Proof.
   destruct (defaults_validate_lemma) as (D1 & D2 & D3 & D4 & D5).
-  destruct init_small as (S1 & S2 & S3 & S4). simpl in S1, S2, S3, S4.
+  destruct init_small as (S1 & S2 & S3 & S4 & S5). simpl in S1, S2, S3, S4, S5.
   destruct c as [c|c|c|c|c]; intros [Hs Hall]; simpl.
   - apply check_mcase_sound with (small := cs_small) (wf := cs_op_wf); auto.
     intros; eapply cs_no_panic; eassumption.
@@ -134,7 +134,7 @@ Proof.
     intros; eapply fm_no_panic; eassumption.
   - apply check_mcase_sound with (small := ht_small) (wf := fun _ => True); auto.
     intros; eapply ht_no_panic; eassumption.
-  - apply check_mcase_sound with (small := fun _ => True) (wf := sv_op_wf); auto.
+  - apply check_mcase_sound with (small := sv_small) (wf := sv_op_wf); auto.
     intros; eapply sv_no_panic; eassumption.
   - apply check_mcase_sound with (small := tk_small) (wf := tk_op_wf); auto.
     intros; eapply tk_no_panic; eassumption.
